@@ -706,3 +706,87 @@ package calendar
 //@   body
 //@     b := f.IsDayYangGong()
 //@     assert(b || !b)
+
+//@ # ================================================================ C11: alternative routes agree
+//@ # The hour object t of a lunar date wraps a Lunar built for the same date and time (t.lunar, observably identical
+//@ # to the original by rtLunar / C01); every hour accessor of t equals the corresponding GetTime* accessor of it.
+//@ ghost func hourObjectAgrees(t *LunarTime) [C11]
+//@   body
+//@     l := t.lunar
+//@     assert(t.GetGanIndex() == l.GetTimeGanIndex() && t.GetZhiIndex() == l.GetTimeZhiIndex())
+//@     assert(t.GetGan() == l.GetTimeGan() && t.GetZhi() == l.GetTimeZhi() && t.GetGanZhi() == l.GetTimeInGanZhi() && t.GetShengXiao() == l.GetTimeShengXiao())
+//@     assert(t.GetPositionXi() == l.GetTimePositionXi() && t.GetPositionXiDesc() == l.GetTimePositionXiDesc())
+//@     assert(t.GetPositionYangGui() == l.GetTimePositionYangGui() && t.GetPositionYangGuiDesc() == l.GetTimePositionYangGuiDesc())
+//@     assert(t.GetPositionYinGui() == l.GetTimePositionYinGui() && t.GetPositionYinGuiDesc() == l.GetTimePositionYinGuiDesc())
+//@     assert(t.GetPositionFu() == l.GetTimePositionFu() && t.GetPositionFuDesc() == l.GetTimePositionFuDesc())
+//@     assert(t.GetPositionCai() == l.GetTimePositionCai() && t.GetPositionCaiDesc() == l.GetTimePositionCaiDesc())
+//@     assert(t.GetNaYin() == l.GetTimeNaYin())
+//@     assert(t.GetTianShen() == l.GetTimeTianShen() && t.GetTianShenType() == l.GetTimeTianShenType() && t.GetTianShenLuck() == l.GetTimeTianShenLuck())
+//@     assert(t.GetChong() == l.GetTimeChong() && t.GetSha() == l.GetTimeSha() && t.GetChongGan() == l.GetTimeChongGan() && t.GetChongGanTie() == l.GetTimeChongGanTie())
+//@     assert(t.GetChongShengXiao() == l.GetTimeChongShengXiao() && t.GetChongDesc() == l.GetTimeChongDesc())
+//@     assert(t.GetXun() == l.GetTimeXun() && t.GetXunKong() == l.GetTimeXunKong())
+
+//@ ghost func hourObjectNineStar(t *LunarTime) [C11 C16]
+//@   body
+//@     a := t.GetNineStar()
+//@     b := t.lunar.GetTimeNineStar()
+//@     assert(a.index == b.index)
+
+//@ # the lunar-year object and the lunar date's New-Year-based year accessors
+//@ ghost func yearObjectAgrees(l *Lunar) [C11]
+//@   requires 1 <= l.year && l.year <= 9998
+//@   body
+//@     y := NewLunarYear(l.year)
+//@     assert(y.GetGanIndex() == l.GetYearGanIndex() && y.GetZhiIndex() == l.GetYearZhiIndex())
+//@     assert(y.GetGan() == l.GetYearGan() && y.GetZhi() == l.GetYearZhi() && y.GetGanZhi() == l.GetYearInGanZhi())
+//@     assert(y.GetPositionTaiSui() == l.GetYearPositionTaiSuiBySect(1))
+//@     assert(y.GetNineStar().index == l.GetYearNineStarBySect(1).index)
+
+//@ # deprecated aliases equal their replacements; default-school accessors equal the explicit school they document
+//@ ghost func aliasesAgree(l *Lunar) [C11]
+//@   body
+//@     assert(l.GetGan() == l.GetYearGan() && l.GetZhi() == l.GetYearZhi() && l.GetShengxiao() == l.GetYearShengXiao())
+//@     assert(l.GetPositionXi() == l.GetDayPositionXi() && l.GetPositionXiDesc() == l.GetDayPositionXiDesc())
+//@     assert(l.GetPositionYangGui() == l.GetDayPositionYangGui() && l.GetPositionYinGui() == l.GetDayPositionYinGui())
+//@     assert(l.GetPositionFu() == l.GetDayPositionFu() && l.GetPositionCai() == l.GetDayPositionCai())
+//@     assert(l.GetDayPositionFu() == l.GetDayPositionFuBySect(2))
+//@     assert(l.GetYearPositionTaiSui() == l.GetYearPositionTaiSuiBySect(2) && l.GetMonthPositionTaiSui() == l.GetMonthPositionTaiSuiBySect(2))
+//@     assert(l.GetYearNineStar().index == l.GetYearNineStarBySect(2).index && l.GetMonthNineStar().index == l.GetMonthNineStarBySect(2).index)
+//@     assert(l.GetChong() == l.GetDayChong() && l.GetSha() == l.GetDaySha() && l.GetChongGan() == l.GetDayChongGan() && l.GetChongDesc() == l.GetDayChongDesc())
+//@     assert(l.GetChongShengXiao() == l.GetDayChongShengXiao() && l.GetChongGanTie() == l.GetDayChongGanTie())
+
+//@ # every derived attribute of an eight-character pillar is computed from that pillar as selected by the current
+//@ # day-boundary convention (sect 1: early-rat day pillar, sect 2: late-rat)
+//@ ghost func eightCharByPillar(l *Lunar, sect int) [C11]
+//@   requires sect == 1 || sect == 2
+//@   body
+//@     ec := NewEightChar(l)
+//@     ec.SetSect(sect)
+//@     dg := ite(sect == 1, l.dayGanIndexExact, l.dayGanIndexExact2)
+//@     dz := ite(sect == 1, l.dayZhiIndexExact, l.dayZhiIndexExact2)
+//@     assert(ec.GetDayGanIndex() == dg && ec.GetDayZhiIndex() == dz)
+//@     assert(ec.GetDayGan() == LunarUtil.GAN[dg+1] && ec.GetDayZhi() == LunarUtil.ZHI[dz+1] && ec.GetDay() == LunarUtil.GAN[dg+1]+LunarUtil.ZHI[dz+1])
+//@     assert(ec.GetYear() == l.GetYearInGanZhiExact() && ec.GetMonth() == l.GetMonthInGanZhiExact() && ec.GetTime() == l.GetTimeInGanZhi())
+//@     assert(ec.GetDayWuXing() == LunarUtil.WU_XING_GAN[LunarUtil.GAN[dg+1]]+LunarUtil.WU_XING_ZHI[LunarUtil.ZHI[dz+1]])
+//@     assert(ec.GetDayNaYin() == LunarUtil.NAYIN[LunarUtil.GAN[dg+1]+LunarUtil.ZHI[dz+1]])
+//@     assert(ec.GetDayXun() == LunarUtil.GetXun(LunarUtil.GAN[dg+1]+LunarUtil.ZHI[dz+1]) && ec.GetDayXunKong() == LunarUtil.GetXunKong(LunarUtil.GAN[dg+1]+LunarUtil.ZHI[dz+1]))
+//@     assert(ec.GetYearShiShenGan() == LunarUtil.SHI_SHEN[LunarUtil.GAN[dg+1]+l.GetYearGanExact()] && ec.GetMonthShiShenGan() == LunarUtil.SHI_SHEN[LunarUtil.GAN[dg+1]+l.GetMonthGanExact()] && ec.GetTimeShiShenGan() == LunarUtil.SHI_SHEN[LunarUtil.GAN[dg+1]+l.GetTimeGan()])
+
+//@ # life stage (di shi) of each pillar: from the day stem and that pillar's own branch, both as selected by the convention
+//@ spec func diShiIndex(dayGan int, zhi int) int
+//@   = modf(ite(modf(dayGan, 2) == 0, changShengOffset[LunarUtil.GAN[dayGan+1]]+zhi, changShengOffset[LunarUtil.GAN[dayGan+1]]-zhi), 12)
+
+//@ ghost func eightCharDiShi(l *Lunar, sect int) [C11]
+//@   requires sect == 1 || sect == 2
+//@   split ite(sect == 1, l.dayGanIndexExact, l.dayGanIndexExact2) in 0..9
+//@   body
+//@     ec := NewEightChar(l)
+//@     ec.SetSect(sect)
+//@     dg := ite(sect == 1, l.dayGanIndexExact, l.dayGanIndexExact2)
+//@     dz := ite(sect == 1, l.dayZhiIndexExact, l.dayZhiIndexExact2)
+//@     assert(0 <= dg && dg <= 9 && 0 <= dz && dz <= 11 && 0 <= l.timeZhiIndex && l.timeZhiIndex <= 11)
+//@     assert(ec.GetDayGanIndex() == dg && ec.GetDayZhiIndex() == dz)
+//@     assert(ec.GetYearDiShi() == CHANG_SHENG[diShiIndex(dg, l.yearZhiIndexExact)])
+//@     assert(ec.GetMonthDiShi() == CHANG_SHENG[diShiIndex(dg, l.monthZhiIndexExact)])
+//@     assert(ec.GetTimeDiShi() == CHANG_SHENG[diShiIndex(dg, l.timeZhiIndex)])
+//@     assert(ec.GetDayDiShi() == CHANG_SHENG[diShiIndex(dg, dz)])
